@@ -5,6 +5,7 @@ package govc
 import (
 	"fmt"
 	"go/types"
+	"path/filepath"
 	"sort"
 	"strings"
 
@@ -31,6 +32,7 @@ type Oblig struct {
 	Output   string
 	Trivial  bool
 	FailPart int
+	Cover    string // cover probes: reachable | unreachable | undecided
 }
 
 type assumption struct {
@@ -99,6 +101,8 @@ type Exec struct {
 	ranged         map[int]bool
 	mapLenKeys     map[string]bool
 	callpreUsed    map[string]bool
+	coverBlocks    bool
+	covered        map[*ssa.BasicBlock]bool
 	inFuncDispatch bool
 	givenVals      map[string]*Term
 	funcVals       []VFunc // function values (closures) that were stored in memory, by identity funcIDBase+index
@@ -178,6 +182,7 @@ func (x *Exec) funcID(v VFunc) *Term {
 }
 
 func (x *Exec) reset() {
+	x.covered = nil
 	x.funcVals = nil
 	x.givenVals = nil
 	x.Sh.FuncID = x.funcID
@@ -1299,6 +1304,25 @@ func (x *Exec) runBlocks(fr *Frame, order []*ssa.BasicBlock, start *ssa.BasicBlo
 		}
 		if in == nil {
 			continue
+		}
+		// cover probe (thorough tier): is this block of the unit reachable under the contract's preconditions
+		// and everything assumed on the way? An unreachable block means the obligations behind it are vacuous:
+		// reported in the evidence for review (dead code and excluded error paths are legitimately unreachable).
+		if x.coverBlocks && isUnit && !x.dry && !isFalse(in.PC) && !x.covered[b] {
+			if x.covered == nil {
+				x.covered = map[*ssa.BasicBlock]bool{}
+			}
+			x.covered[b] = true
+			pos := ""
+			for _, ins := range b.Instrs {
+				if ins.Pos().IsValid() && x.W.Fset != nil {
+					pp := x.W.Fset.Position(ins.Pos())
+					pos = fmt.Sprintf("%s:%d", filepath.Base(pp.Filename), pp.Line)
+					break
+				}
+			}
+			x.obligs = append(x.obligs, &Oblig{Name: fmt.Sprintf("%s/cover[b%d %s %s]", x.unitName, b.Index, b.Comment, pos), Kind: "cover", Unit: x.unitName,
+				Goal: x.C.Not(in.PC), NAssume: len(x.assumes), Self: -1, Src: "block is reachable (expected: sat)"})
 		}
 		if isUnit && li == nil && b != start {
 			if x.splitReturn(fr, b, edge, rets) {
